@@ -150,6 +150,9 @@ class UTPM(Ring, RawAlgorithmsMixIn):
         else:
             if not isinstance(sl, tuple):
                 sl = (sl,)
+            if isinstance(rhs, numpy.ndarray) and numpy.may_share_memory(self.data, rhs):
+                # x[sl] = x.data[1,0]: the higher coefficients are cleared before rhs is read
+                rhs = rhs.copy()
             self.data.__setitem__((slice(1,None),slice(None)) + sl, 0)
             # (indexing the view data[0]: an integer 0 in front of an advanced index in sl
             # would move the index axis in front of the direction axis)
